@@ -356,3 +356,9 @@ Definition agg_typing_out (cols : list ty) (a : agg) (rows : list row) : out :=
   OL [o_ty (agg_type cols a);
       match agg_type cols a with Some t => o_bool (has_type v t) | None => ON 2 end;
       o_value v].
+
+Definition description_out (cols : list ty) (ts : list target) : out :=
+  match description cols [] ts with
+  | None => OL []
+  | Some d => OL [OL (map (fun nt => OL [o_str (fst nt); ON (ty_code (snd nt))]) d)]
+  end.
